@@ -4,7 +4,7 @@ from verif.core import Infra
 META = dict(
     technique="TLA+ reference model of absolute-URI splitting, component normalisation and FullURI/RequestURI rendering (URIModel.tla, path normalisation reused from PathNorm.tla); TLC checks Parse(Render(Parse(u))) = Parse(u) and the RequestURI claim on every enumerated URI and emits the vectors, which are run through URI.Parse / FullURI / RequestURI / QueryArgs and net/url.Parse (B3), plus seeded random edits of the vectors checked against the property's own relations",
     design_ref="DESIGN.md §4 C27",
-    text="TLC assembles absolute URIs from component menus: scheme {http, https, HTTP, ftp, empty} x userinfo {none, u, u:p, u@v} x host {reg-name, upper case, %C3%A9, %c3%a9, %25, IPv4, [::1], [FE80::1], [::g], zone literal in lower case / upper case / with the letter written as %65 / as %45, empty, %41} x port {none, :80, ':', :8a}; all paths '/' + <= N tokens over {/ . x %2e %2f %25 %} x query {none, empty, a=1&b=2, a=%zz+%26, u=http://x/y, a?b} x fragment {none, empty, f, f?x#y}; host x short path. Every vector is checked on the reference (round trip claim) and run through the real code: re-parse of FullURI() (scheme, host, path, raw query, args, fragment), of RequestURI() against the host (path, args), the same after QueryArgs() was used, net/url agreement on host and raw query for http/https, and equality with the reference's components when the reference calls the URI valid. Seeded random edits of each vector (insert/delete/replace/duplicate, percent-escape a byte, flip letter case) are checked with the same relations (no reference).",
+    text="TLC assembles absolute URIs from component menus: scheme {http, https, HTTP, ftp, empty} x userinfo {none, u, u:p, u@v} x host {reg-name, upper case, %C3%A9, %c3%a9, %25, IPv4, [::1], [FE80::1], [::g], zone literal in lower case / upper case / with the letter written as %65 / as %45, empty, %41} x port {none, :80, ':', :8a}; all paths '/' + <= N tokens over {/ . x %2e %2f %25 %} x query {none, empty, a=1&b=2, a=%zz+%26, u=http://x/y, a?b, a=1&b, a&b=} x fragment {none, empty, f, f?x#y}; host x short path. Every vector is checked on the reference (round trip claim) and run through the real code: re-parse of FullURI() (scheme, host, path, raw query, args, fragment), of RequestURI() against the host (path, args), the same after QueryArgs() was used, net/url agreement on host and raw query for http/https, equality with the reference's components when the reference calls the URI valid, and object-history independence (a long-lived URI object that parsed a longer URI with eight valued arguments and had QueryArgs() used accepts the same inputs and shows the same getters, serialisations and arguments as a fresh object). Seeded random edits of each vector (insert/delete/replace/duplicate, percent-escape a byte, flip letter case) are checked with the same relations (no reference).",
     note="Trusted: the TLA+ transcription of RFC 3986 splitting (meta-checked by TLC), TLC, Go's net/url as second oracle. URIs fasthttp rejects are outside the property; hosts decoding to a literal '%' are excluded as the property states.",
 )
 
@@ -19,7 +19,7 @@ def run(ctx):
     ctx.absorb(recs)
     ctx.traces_validated = ctx.evaluations
     ctx.exhaustive = False
-    ctx.rule = ("vectors: authority space (5x4x15x4) x 4 tails, all paths '/'+<=%d tokens x 6 queries x 4 fragments x 2 authorities, "
+    ctx.rule = ("vectors: authority space (5x4x15x4) x 4 tails, all paths '/'+<=%d tokens x 8 queries x 4 fragments x 2 authorities, "
                 "15 hosts x short paths; plus seeded random edits that keep an absolute form; non-trivial = contains an escape, "
                 "userinfo, bracket, query, fragment or upper-case letter (every random edit counts)" % n)
     ctx.assumptions = ["component menus as listed in the technique text", "path token bound %d" % n,
